@@ -476,6 +476,56 @@ class C20Machine(M.HistoryMachine):
         self.verdicts += {True: "W", False: "w", None: "-"}.get(got, "?")
         self._after_any_trial(where, got, added, removed, cell_changed)
 
+    @rule(i=st.integers(0, 2), via=st.sampled_from(["add_move", "storage"]), verdict=st.booleans())
+    def replace_between_announcement_and_trial(self, i, via, verdict):
+        """A caller iterating the step replaces the entry whose name was just announced (yielded) before resuming:
+        the trial that follows is the new entry's."""
+        if self.dead or self.mc is None:
+            return
+        self.log.append({"rule": "replace_between_announcement_and_trial", "args": {"i": i, "via": via, "verdict": verdict}})
+        i = i % len(self.users)
+        old_mv, old_cr = self.users[i]
+        mv = BareMove(payload=i + 10)
+        _st(mv)["shift"] = _st(old_mv)["shift"]
+        _st(mv)["results"] = [True]
+        _st(old_mv)["results"] = [True]
+        cr = BareCriteria(payload=i + 20) if via == "add_move" else old_cr
+        _st(cr)["verdicts"] = [verdict]
+        _st(old_cr)["verdicts"] = [verdict]
+        self._select(f"u{i}")
+        c_old, c_new = _st(old_mv)["calls"], _st(mv)["calls"]
+        k_old, k_new = _st(old_cr)["calls"], _st(cr)["calls"]
+        state = {"done": False}
+
+        def body():
+            for step in self.mc.irun(1):
+                for _name in step:
+                    if not state["done"]:
+                        state["done"] = True
+                        if via == "add_move":
+                            self.mc.add_move(mv, criteria=cr, name=f"u{i}")
+                        else:
+                            self.mc.moves[f"u{i}"].move = mv
+
+        try:
+            self.guarded("step", body)
+        except M.Stop:
+            return
+        self.users[i] = (mv, cr)
+        self.replaced = getattr(self, "replaced", {})
+        self.replaced[id(mv)] = (len(self.expected_atoms_notes), len(self.expected_cell_notes))
+        where = f"entry u{i} replaced ({via}) after its name was announced"
+        if _st(mv)["calls"] - c_new != 1 or _st(old_mv)["calls"] - c_old != 0:
+            self.fail("replaced-entry-not-executed", f"{where}: the new move was executed {_st(mv)['calls'] - c_new} times, the replaced one {_st(old_mv)['calls'] - c_old} times")
+            return
+        if via == "add_move" and (_st(cr)["calls"] - k_new != 1 or _st(old_cr)["calls"] - k_old != 0):
+            self.fail("replaced-entry-not-executed", f"{where}: the new criteria was consulted {_st(cr)['calls'] - k_new} times, the replaced one {_st(old_cr)['calls'] - k_old} times")
+            return
+        _st(old_mv)["results"], _st(old_cr)["verdicts"] = [], []
+        self.truthy += 1
+        self.labels.add("entry-replaced-inside-a-step")
+        self._after_any_trial(where, None, [], [], False)
+
     @rule(i=st.integers(0, 2), via=st.sampled_from(["add_move", "storage"]))
     def replace_user_move(self, i, via):
         """Replace a user move under its existing table name (both documented ways); the new object must be the one
